@@ -15,10 +15,16 @@ def c15_hypervalent_hydride(v):
     """map removal changed only the hydrogen count, and the input contains an
     organic-subset bracket atom with an explicit H count and nothing else
     (no charge / isotope / chirality) - the atom the second regex unbrackets"""
-    if v.get("kind") != "molecule_changed_by_map_removal":
-        return False
     s = v.get("case", {}).get("smiles", "")
     if not _ORG_HYDRIDE.search(s):
+        return False
+    if v.get("kind") == "demapped_output_unparsable":
+        # same unbracketing, but the atom without its hydrogens has no valid valence at all
+        # (O=[ClH5] -> O=Cl): stripping only the map numbers still gives a valid molecule
+        from vmon import oracle
+        return oracle.parse(re.sub(r":\d+(?=\])", "", s)) is not None and \
+            oracle.parse(v.get("output")) is None
+    if v.get("kind") != "molecule_changed_by_map_removal":
         return False
     wc, gc = v.get("want_comp"), v.get("got_comp")
     if not wc or not gc or wc[1] != gc[1]:
